@@ -68,6 +68,139 @@ theorem copyInst_inv (D : Decls) (t : Nat) (inst : Inst) (h : Heap) : CopyInv D 
   rw [copyInst_eq_foldl]
   exact copy_foldl_inv D t inst h inst ([], h) (fun _ hx => hx) ⟨⟨[], by simp⟩, by simp⟩
 
+/-! ### a copy holds the current values -/
+
+theorem cell_append_len (h : Heap) (c : Int) : cell (h ++ [c]) h.length = c := by
+  unfold cell
+  simp [List.getD_eq_getElem?_getD]
+
+theorem values_append_heap (i : Inst) (h e : Heap) (hi : ∀ pa ∈ i, pa.2 < h.length) : values i (h ++ e) = values i h := by
+  unfold values
+  apply List.map_congr_left
+  intro pa hpa
+  obtain ⟨p, a⟩ := pa
+  simp only
+  rw [cell_append_lt h e a (hi (p, a) hpa)]
+
+theorem values_snoc (i : Inst) (pa : Path × Nat) (h : Heap) :
+    values (i ++ [pa]) h = values i h ++ [toString (cell h pa.2)] := by
+  unfold values
+  simp
+
+theorem copy_foldl_values (D : Decls) (t : Nat) (h : Heap) :
+    ∀ (l done : Inst) (acc : Inst × Heap), (∀ x ∈ l, x.2 < h.length) →
+      (∃ ext, acc.2 = h ++ ext) → (∀ pa ∈ acc.1, pa.2 < acc.2.length) → values acc.1 acc.2 = values done h →
+      values (l.foldl (copyStep D t) acc).1 (l.foldl (copyStep D t) acc).2 = values (done ++ l) h := by
+  intro l
+  induction l with
+  | nil => intro done acc _ _ _ hv; simpa using hv
+  | cons pa rest ih =>
+    intro done acc hl hext hidx hv
+    obtain ⟨ext, he⟩ := hext
+    have hpa : pa.2 < h.length := hl pa (by simp)
+    have hlen : h.length ≤ acc.2.length := by rw [he, List.length_append]; omega
+    rw [List.foldl_cons]
+    have hd : done ++ pa :: rest = (done ++ [pa]) ++ rest := by simp
+    rw [hd]
+    apply ih
+    · intro x hx; exact hl x (by simp [hx])
+    · unfold copyStep
+      by_cases hvp : viaPtr D t pa.1 = true
+      · simp only [hvp, if_true]; exact ⟨ext, he⟩
+      · rw [if_neg hvp]; exact ⟨ext ++ [cell acc.2 pa.2], by simp [he]⟩
+    · unfold copyStep
+      by_cases hvp : viaPtr D t pa.1 = true
+      · simp only [hvp, if_true]
+        intro q hq
+        simp only [List.mem_append, List.mem_singleton] at hq
+        rcases hq with hq | rfl
+        · exact hidx q hq
+        · omega
+      · rw [if_neg hvp]
+        intro q hq
+        simp only [List.mem_append, List.mem_singleton] at hq
+        simp only [List.length_append, List.length_singleton]
+        rcases hq with hq | rfl
+        · have := hidx q hq; omega
+        · simp
+    · unfold copyStep
+      by_cases hvp : viaPtr D t pa.1 = true
+      · simp only [hvp, if_true]
+        rw [values_snoc, values_snoc, hv, he, cell_append_lt h ext pa.2 hpa]
+      · rw [if_neg hvp]
+        simp only
+        rw [values_snoc, values_snoc, values_append_heap acc.1 acc.2 _ hidx, hv]
+        simp only
+        rw [cell_append_len, he, cell_append_lt h ext pa.2 hpa]
+
+/-- **a copy holds the values its original has at the time of the copy** -/
+theorem copyInst_values (D : Decls) (t : Nat) (inst : Inst) (h : Heap) (hin : ∀ pa ∈ inst, pa.2 < h.length) :
+    values (copyInst D t inst h).1 (copyInst D t inst h).2 = values inst h := by
+  rw [copyInst_eq_foldl]
+  have := copy_foldl_values D t h inst [] ([], h) hin ⟨[], by simp⟩ (by simp) rfl
+  simpa using this
+
+theorem copy_foldl_idx (D : Decls) (t : Nat) (h : Heap) :
+    ∀ (l : Inst) (acc : Inst × Heap), (∀ x ∈ l, x.2 < h.length) → h.length ≤ acc.2.length →
+      (∀ pa ∈ acc.1, pa.2 < acc.2.length) →
+      ∀ pa ∈ (l.foldl (copyStep D t) acc).1, pa.2 < (l.foldl (copyStep D t) acc).2.length := by
+  intro l
+  induction l with
+  | nil => intro acc _ _ hidx; simpa using hidx
+  | cons pa rest ih =>
+    intro acc hl hlen hidx
+    rw [List.foldl_cons]
+    have hpa : pa.2 < h.length := hl pa (by simp)
+    apply ih
+    · intro x hx; exact hl x (by simp [hx])
+    · unfold copyStep
+      by_cases hvp : viaPtr D t pa.1 = true
+      · simp only [hvp, if_true]; exact hlen
+      · rw [if_neg hvp]; simp only [List.length_append, List.length_singleton]; omega
+    · unfold copyStep
+      by_cases hvp : viaPtr D t pa.1 = true
+      · simp only [hvp, if_true]
+        intro q hq
+        simp only [List.mem_append, List.mem_singleton] at hq
+        rcases hq with hq | rfl
+        · exact hidx q hq
+        · omega
+      · rw [if_neg hvp]
+        intro q hq
+        simp only [List.mem_append, List.mem_singleton] at hq
+        simp only [List.length_append, List.length_singleton]
+        rcases hq with hq | rfl
+        · have := hidx q hq; omega
+        · simp
+
+/-- the cells of a copy are cells of the grown heap -/
+theorem copyInst_idx (D : Decls) (t : Nat) (inst : Inst) (h : Heap) (hin : ∀ pa ∈ inst, pa.2 < h.length) :
+    ∀ pa ∈ (copyInst D t inst h).1, pa.2 < (copyInst D t inst h).2.length := by
+  rw [copyInst_eq_foldl]
+  exact copy_foldl_idx D t h inst ([], h) hin (Nat.le_refl _) (by simp)
+
+/-- **the receiver a method body starts with holds the values the operand has when the storage is
+    made** — whichever steps copy -/
+theorem recvStorage_values (w : Who) (F : Facts) (D : Decls) (owner : Nat) (m : Meth) (srcPtr vi : Bool)
+    (inst : Inst) (h : Heap) (hin : ∀ pa ∈ inst, pa.2 < h.length) :
+    values (recvStorage w F D owner m srcPtr vi inst h).1 (recvStorage w F D owner m srcPtr vi inst h).2 = values inst h := by
+  have h2 : values (copyInst D owner (copyInst D owner inst h).1 (copyInst D owner inst h).2).1
+      (copyInst D owner (copyInst D owner inst h).1 (copyInst D owner inst h).2).2 = values inst h := by
+    rw [copyInst_values D owner _ _ (copyInst_idx D owner inst h hin), copyInst_values D owner inst h hin]
+  have h1 := copyInst_values D owner inst h hin
+  unfold recvStorage bindRecv enterRecv
+  cases m.ptr with
+  | true => rfl
+  | false =>
+    simp only [Bool.false_eq_true, if_false]
+    cases w with
+    | go => exact h2
+    | yaegi =>
+      simp only
+      generalize valueArm F srcPtr = arm
+      generalize callSlot F vi = c
+      cases arm <;> cases c <;> simp only [applyBind] <;> first | exact h2 | exact h1 | rfl
+
 /-- a write through the receiver `r` leaves every cell that is not a cell of `r` alone -/
 theorem applyWrite_other (r : Inst) (h : Heap) (w : Write) (a : Nat) (hr : ∀ pa ∈ r, pa.2 ≠ a) :
     cell (applyWrite r h w) a = cell h a := by
@@ -111,7 +244,7 @@ theorem copy_of_fresh (D : Decls) (t : Nat) (inst : Inst) (h : Heap) (r0 : Inst 
 /-- when both steps of the binding copy a value receiver (the extracted values), the interpreter's
     receiver storage is Go's -/
 def bindCopies (F : Facts) : Prop :=
-  F.recvBind.ptrToVal = .set ∧ F.recvBind.same = .set ∧ F.recvBind.call = .set
+  F.recvBind.ptrToVal = .set ∧ F.recvBind.same = .set ∧ F.recvBind.call = .set ∧ F.recvBind.lateCall = .set
 
 instance (F : Facts) : Decidable (bindCopies F) := by unfold bindCopies; infer_instance
 
@@ -120,24 +253,28 @@ theorem bindRecv_who (F : Facts) (hF : bindCopies F) (D : Decls) (owner : Nat) (
   unfold bindRecv valueArm applyBind
   cases m.ptr <;> cases srcPtr <;> simp [hF.1, hF.2.1]
 
-theorem enterRecv_who (F : Facts) (hF : bindCopies F) (D : Decls) (owner : Nat) (m : Meth) (r0 : Inst) (h : Heap) :
-    enterRecv .yaegi F D owner m r0 h = enterRecv .go F D owner m r0 h := by
-  unfold enterRecv applyBind
-  cases m.ptr <;> simp [hF.2.2]
+theorem callSlot_set (F : Facts) (hF : bindCopies F) (vi : Bool) : callSlot F vi = .set := by
+  unfold callSlot
+  cases vi <;> cases F.recvBind.lateNilNode <;> simp [hF.2.2.1, hF.2.2.2]
 
-theorem recvStorage_who (F : Facts) (hF : bindCopies F) (D : Decls) (owner : Nat) (m : Meth) (srcPtr : Bool) (inst : Inst) (h : Heap) :
-    recvStorage .yaegi F D owner m srcPtr inst h = recvStorage .go F D owner m srcPtr inst h := by
+theorem enterRecv_who (F : Facts) (hF : bindCopies F) (D : Decls) (owner : Nat) (m : Meth) (vi : Bool) (r0 : Inst) (h : Heap) :
+    enterRecv .yaegi F D owner m vi r0 h = enterRecv .go F D owner m vi r0 h := by
+  unfold enterRecv applyBind
+  cases m.ptr <;> simp [callSlot_set F hF]
+
+theorem recvStorage_who (F : Facts) (hF : bindCopies F) (D : Decls) (owner : Nat) (m : Meth) (srcPtr vi : Bool) (inst : Inst) (h : Heap) :
+    recvStorage .yaegi F D owner m srcPtr vi inst h = recvStorage .go F D owner m srcPtr vi inst h := by
   unfold recvStorage
   rw [bindRecv_who F hF, enterRecv_who F hF]
 
 theorem runMeth_who (F : Facts) (hF : bindCopies F)
-    (D : Decls) (owner : Nat) (m : Meth) (srcPtr : Bool) (inst : Inst) (s : St) :
-    runMeth .yaegi F D owner m srcPtr inst s = runMeth .go F D owner m srcPtr inst s := by
+    (D : Decls) (owner : Nat) (m : Meth) (srcPtr vi : Bool) (inst : Inst) (s : St) :
+    runMeth .yaegi F D owner m srcPtr vi inst s = runMeth .go F D owner m srcPtr vi inst s := by
   unfold runMeth
   rw [recvStorage_who F hF]
 
-theorem runBound_who (F : Facts) (hF : bindCopies F) (D : Decls) (owner : Nat) (m : Meth) (r0 : Inst) (s : St) :
-    runBound .yaegi F D owner m r0 s = runBound .go F D owner m r0 s := by
+theorem runBound_who (F : Facts) (hF : bindCopies F) (D : Decls) (owner : Nat) (m : Meth) (vi : Bool) (r0 : Inst) (s : St) :
+    runBound .yaegi F D owner m vi r0 s = runBound .go F D owner m vi r0 s := by
   unfold runBound
   rw [enterRecv_who F hF]
 
@@ -149,10 +286,10 @@ theorem runSel_who (F : Facts) (hF : bindCopies F)
 
 /-- the storage of a value receiver is fresh (new cells, or cells the operand reaches through an
     embedded pointer) whenever one of the two steps that apply copies -/
-theorem recvStorage_fresh (w : Who) (F : Facts) (D : Decls) (owner : Nat) (m : Meth) (hm : m.ptr = false) (srcPtr : Bool)
+theorem recvStorage_fresh (w : Who) (F : Facts) (D : Decls) (owner : Nat) (m : Meth) (hm : m.ptr = false) (srcPtr vi : Bool)
     (inst : Inst) (h : Heap)
-    (hF : w = .go ∨ F.recvBind.call = .set ∨ (F.recvBind.ptrToVal = .set ∧ F.recvBind.same = .set)) :
-    CopyInv D owner inst h (recvStorage w F D owner m srcPtr inst h) := by
+    (hF : w = .go ∨ callSlot F vi = .set ∨ (F.recvBind.ptrToVal = .set ∧ F.recvBind.same = .set)) :
+    CopyInv D owner inst h (recvStorage w F D owner m srcPtr vi inst h) := by
   unfold recvStorage bindRecv enterRecv
   simp only [hm, Bool.false_eq_true, if_false]
   cases w with
@@ -160,7 +297,7 @@ theorem recvStorage_fresh (w : Who) (F : Facts) (D : Decls) (owner : Nat) (m : M
   | yaegi =>
     simp only
     generalize hv : valueArm F srcPtr = arm
-    generalize hc : F.recvBind.call = c
+    generalize hc : callSlot F vi = c
     have hcc := copy_of_fresh D owner inst h _ (copyInst_inv D owner inst h)
     have hc1 := copyInst_inv D owner inst h
     cases arm <;> cases c <;> simp only [applyBind] <;> first | exact hcc | exact hc1 | skip
